@@ -37,6 +37,15 @@ func genParams(rt *rapid.T, seedTag string) sim.Params {
 	p.NumEth = 3
 	p.Evidence.BlockVotesDiff = 1000 // keep the missed-votes logic away
 	p.PreEthBalances = nil
+	// trackers carried over by a state dump: decided locks of the previous network, mostly as the block end archives them
+	if u.N(3, "pretrk") == 0 {
+		uni := sim.NewUniverse(p.Seed, 0, p.NumUsers, p.NumEth)
+		for i, n := 0, u.Range(1, 3, "npretrk"); i < n; i++ {
+			e := uni.Eth[u.N(len(uni.Eth), "pretrk-eth")]
+			raw := txgen.EthLockRaw(e, uint64(1000+i), &sim.LockRedeemContract, big.NewInt(int64(u.Range(1, 1000000, "pretrk-amt"))))
+			p.PreTrackers = append(p.PreTrackers, sim.PreTracker{Raw: raw, Failed: u.N(3, "pretrk-failed") == 0, Owner: u.N(p.NumUsers, "pretrk-owner"), Cleaned: u.N(4, "pretrk-clean") != 0})
+		}
+	}
 	if u.N(2, "ethcap") == 0 {
 		p.EthCap = "1000000000000000000000" // 1000 ether; the default of 2 ether refuses every lock of main-net size
 	}
@@ -155,6 +164,16 @@ func (g *gen) lock() txgen.Tx {
 	}
 	a := g.lockAmount()
 	raw := txgen.EthLockRaw(e, g.nextNonce(e), &sim.LockRedeemContract, a)
+	if pre := g.w.P.PreTrackers; len(pre) > 0 && g.pct(20, "pretrk-again") {
+		// the ethereum transaction of a tracker the genesis carried, submitted again (by its owner or by somebody else)
+		pt := pre[g.rng(0, len(pre)-1, "pretrk-which")]
+		raw = pt.Raw
+		if g.pct(60, "pretrk-owner") {
+			ui = pt.Owner % len(g.w.G.U.Users)
+			u = g.w.G.U.Users[ui]
+		}
+		g.tags["genesis-tracker-resubmitted"]++
+	}
 	tx := txgen.EthLock(u, u.Addr, raw, g.w.Fee, g.w.Memo())
 	g.remember("ETH_LOCK", raw, ui, tx)
 	return tx
